@@ -382,11 +382,12 @@ func TestC02Session(t *testing.T) {
 // TestC02SessionConcurrentSend: Session.Send is documented to allocate counters atomically.
 func TestC02SessionConcurrentSend(t *testing.T) {
 	const sub = "C02.session_concurrent_send"
-	ev.Rule(sub, "rapid: 2-16 goroutines call Session.Send concurrently (50-400 messages each, plaintext sizes 0-64) on an established session, optionally starting just below the 2^32 message limit (hook); oracle: all successful ciphertexts carry pairwise distinct counters >= 16 and below the limit, each decrypts at the peer to the plaintext it was made from, at most once. non-trivial = >= 2 goroutines; distinct by (goroutines, messages, start)")
+	ev.Rule(sub, "rapid: 2-16 goroutines call Session.Send concurrently (50-400 messages each, plaintext sizes 0-64) on an established session, optionally starting just below the 2^32 message limit (hook), optionally with two more callers that keep offering 70 000-byte plaintexts (larger than a message may carry); oracle: all successful ciphertexts carry pairwise distinct counters >= 16 and below the limit, each decrypts at the peer to the plaintext it was made from, at most once. non-trivial = >= 2 goroutines; distinct by (goroutines, messages, start)")
 	rapid.Check(t, func(t *rapid.T) {
 		g := rapid.IntRange(2, 16).Draw(t, "goroutines")
 		per := rapid.IntRange(50, 400).Draw(t, "perGoroutine")
 		nearLimit := rapid.IntRange(0, 2).Draw(t, "nearLimit") > 0
+		oversize := rapid.Bool().Draw(t, "oversizeCallers")
 		a, b, _, p := establish("P", 0, 1, rapid.Bool().Draw(t, "viaData"))
 		if p != "" {
 			t.Fatalf("%s", p)
@@ -397,7 +398,7 @@ func TestC02SessionConcurrentSend(t *testing.T) {
 		type res struct {
 			ct, pt []byte
 		}
-		out := make([][]res, g)
+		out := make([][]res, g+2)
 		done := make(chan struct{})
 		for i := 0; i < g; i++ {
 			i := i
@@ -412,7 +413,25 @@ func TestC02SessionConcurrentSend(t *testing.T) {
 				}
 			}()
 		}
-		for i := 0; i < g; i++ {
+		// optionally two more callers keep offering plaintexts larger than a message may carry: a refusal is fine,
+		// a refusal that disturbs the counters of the other callers is not
+		nOver := 0
+		if oversize {
+			nOver = 2
+			big := bytes.Repeat([]byte{0xEE}, 70000)
+			for k := 0; k < nOver; k++ {
+				k := k
+				go func() {
+					defer func() { done <- struct{}{} }()
+					for j := 0; j < per/4+1; j++ {
+						if ct, err := a.s.Send(nil, big, tBase); err == nil {
+							out[g+k] = append(out[g+k], res{ct, big})
+						}
+					}
+				}()
+			}
+		}
+		for i := 0; i < g+nOver; i++ {
 			<-done
 		}
 		seen := map[uint32]bool{}
@@ -430,7 +449,7 @@ func TestC02SessionConcurrentSend(t *testing.T) {
 				seen[c] = true
 			}
 		}
-		if !nearLimit && total != g*per {
+		if !nearLimit && !oversize && total != g*per {
 			t.Fatalf("%d of %d Sends failed on a healthy session", g*per-total, g*per)
 		}
 		// every ciphertext decrypts to its own plaintext at the peer (any order)
